@@ -464,17 +464,28 @@ def h_traceback(I, fi):
         P.check("traceback.initial-budget", z3.And(P.z(v0) >= 0, P.z(v0) <= P.z(idxs_at(dq)), P.z(v0) == P.z(alg.raw_app("S_choice", dq, idxs_at(dq), sort="Int"))),
                 "the children's total budget is log_S_choice[d, idx(node)[d]], which is in [0, idx(node)[d]]", kind="post")
         rng_ = I_.eval(node.iter, fr)
-        P.check("traceback.visits-every-child-once", dsl.conj(isinstance(rng_, SymSeq), P.z(rng_.length) == P.z(n), P.z(I_.to_num(rng_.core_at(I_, Num.const(0)))) == P.z(n) - 1),
-                "children are visited from the last to the first, each exactly once", kind="post")
+
+        def position(el):
+            # the loop may run over positions (`range(len(children) - 1, -1, -1)`) or over (position, child) pairs (`enumerate`)
+            if isinstance(el, tuple) and len(el) == 2 and isinstance(el[0], (Num, int)):
+                return I_.to_num(el[0])
+            return I_.to_num(el)
+
+        if not isinstance(rng_, SymSeq):
+            raise Unsupported("the loop over the children does not run over a sequence the contract knows")
+        P.check("traceback.visits-every-child-once", dsl.conj(P.z(rng_.length) == P.z(n), P.z(position(rng_.core_at(I_, Num.const(0)))) == P.z(n) - 1),
+                "children are visited from the last to the first (log_D_choice[i] is the share of child i given what children 0..i may use), each exactly once", kind="post")
         # inductive step: arbitrary child i, arbitrary remaining budgets satisfying the invariant
         i = rng_.fresh_index(I_, "pos")
-        ci = I_.to_num(rng_.core_at(I_, i))
+        element = rng_.core_at(I_, i)
+        ci = position(element)
+        n_made_before = len(made_max)
         st["initial"] = None
         st["rem_name"] = P.fresh_name("rem")
         fr.vars["child_total_idx"] = rem
         rem.cells.clear()
         del rem.writes[:]
-        I_.assign_target(node.target, ci, fr)
+        I_.assign_target(node.target, element, fr)
         I_.registry.generic_loops.add(fi.qualname)
         I_.exec_block(node.body, fr)
         dsl.cover(I_, "traceback.step")
@@ -489,8 +500,11 @@ def h_traceback(I, fi):
                 "the child's index is log_D_choice[i][d, remaining] and lies in [0, remaining]", kind="post")
         P.check("traceback.budget-updated", len(rem.writes) == 1 and (I_.to_num(rem.writes[0]) - d).is_zero() and P.z(I_.to_num(rem.cells[key_of(d)])) == P.z(r_before - m),
                 "remaining[d] decreases by exactly the child's index (so it stays >= 0 and the children's indices sum to at most the initial budget)", kind="post")
-        P.check("traceback.recursion", len(log["rec"]) == 1 and log["rec"][0][1] == ("child", ci) and log["rec"][0][0] is made_max[-1],
+        P.check("traceback.recursion", len(log["rec"]) == 1 and log["rec"][0][1] == ("child", ci) and bool(made_max) and log["rec"][0][0] is made_max[-1],
                 "the child's subtree is assigned from the child's own indices", kind="post")
+        kid = child_dicts.get(key_of(ci))
+        P.check("traceback.own-index-vector-per-child", len(made_max) == n_made_before + 1 and kid is not None and kid.extra.get("max_idx") is made_max[-1],
+                "every child gets an index vector of its own, created for it in this step (siblings must not share one array)", kind="post")
         raise PathEnd()
 
     I.registry.loop_invariants[(fi.qualname, 0)] = outer
